@@ -848,6 +848,63 @@ func (r *run) fetchAudio(as *assetState, in l1In, nr int64) audioObs {
 	return o
 }
 
+// fetchNone requests an audio segment that does not exist (a $Time$ that is no listed start time, a number
+// beyond 32 bits): the property says which times/numbers are segments, anything else must be 404
+// (and must not be served). The case goes to the whole-request model as well.
+func (r *run) fetchNone(as *assetState, in l1In, what string) {
+	c := r.c
+	resp := as.ls.GetRaw(in.AudioURL)
+	cls := int64(9)
+	var tfdt uint64
+	var seq uint32
+	var can []int64
+	switch {
+	case resp.Panic != "":
+		cls = 2
+		c.Fail("", "panic:"+resp.Panic, "audio segment request panics", in)
+	case resp.Status == 404:
+		cls = 3
+	case resp.Status == 200:
+		cls = 0
+		if ps, err := parseMedia(resp.Body, as.audio.trex); err == nil {
+			tfdt, seq = ps.Tfdt, ps.Seq
+			for _, f := range ps.Frames {
+				if i, ok := as.byHash[f.Hash]; ok {
+					can = append(can, i)
+				} else {
+					can = append(can, -1)
+				}
+			}
+		}
+		c.Fail("", "not-a-segment-served", what+": answered 200 with tfdt "+fmt.Sprint(tfdt), in)
+	case resp.Status == 500:
+		cls = 1
+		c.Fail("", "not-a-segment-500", what+": answered 500 "+strings.TrimSpace(string(resp.Body)), in)
+	case resp.Status == 425:
+		cls = 4
+		c.Fail("", "not-a-segment-425", what+": answered 425", in)
+	case resp.Status == 410:
+		cls = 5
+		c.Fail("", "not-a-segment-410", what+": answered 410", in)
+	default:
+		c.Fail("", fmt.Sprintf("not-a-segment-%d", resp.Status), what, in)
+	}
+	if cls != 9 {
+		mode := 0
+		if in.Mode == "time-none" {
+			mode = 1
+		}
+		id := r.add(fmt.Sprintf("KReq vrep_%s %d %d %s %s tab_%s canon_%s %d %s %d %d %s %d %s", as.d.Name, as.D*1000/as.R, in.StartNr,
+			u(as.F), u(as.A), as.d.Name, as.d.Name, mode, u(in.SegID), in.NowMS, cls, u(tfdt), seq, zl(can)), in, false)
+		for i := len(c.Res.OracleFailures) - 1; i >= 0 && c.Res.OracleFailures[i].Case == ""; i-- {
+			if li, ok := c.Res.OracleFailures[i].Input.(l1In); ok && li.AudioURL == in.AudioURL {
+				c.Res.OracleFailures[i].Case = id
+			}
+		}
+	}
+	c.Count("l1:" + as.d.Name + ":" + in.Mode)
+}
+
 // numberRun: L consecutive segment numbers from n0, $Number$ addressing.
 func (r *run) numberRun(as *assetState, prefix string, n0 int64, L int) {
 	c := r.c
@@ -900,6 +957,11 @@ func (r *run) numberRun(as *assetState, prefix string, n0 int64, L int) {
 		oo := o
 		prev = &oo
 	}
+	// the same number plus 2^32 is no segment (uint32(segID) would be an available one)
+	big := uint64(n0+t.startNr) + 1<<32
+	bin := l1In{Kind: "l1", Asset: as.d.Name, Mode: "number-none", N: int64(big), SegID: big, NowMS: nowMS, StartNr: t.startNr}
+	bin.AudioURL = fmt.Sprintf("/livesim2/%s%s/%s?nowMS=%d", prefix, as.d.URLPath, fillT(t.audio, t.audioRep, big), nowMS)
+	r.fetchNone(as, bin, "segment number beyond 32 bits")
 }
 
 type tlIn struct {
@@ -1018,6 +1080,20 @@ func (r *run) timelineRun(as *assetState, prefix string, nowMS int64, nFetch int
 		}
 		oo := o
 		prev = &oo
+	}
+	// times that the timeline does not list: one frame after a listed start, and one tick after it
+	k := len(v) - 1
+	if k >= 0 {
+		for _, off := range []uint64{as.F, 1} {
+			if (off == 1 && as.F == 1) || (off == as.F && a[k].D <= as.F) {
+				continue
+			}
+			tm := a[k].T + off
+			nin := l1In{Kind: "l1", Asset: as.d.Name, Mode: "time-none", N: -1, RefStart: v[k].T, RefEnd: v[k].T + v[k].D,
+				SegID: tm, NowMS: nowMS, StartNr: 0, SampleDurMismatch: as.mpdF != as.F}
+			nin.AudioURL = fmt.Sprintf("/livesim2/%s%s/%s?nowMS=%d", prefix, as.d.URLPath, fillT(t.audio, t.audioRep, tm), nowMS)
+			r.fetchNone(as, nin, fmt.Sprintf("time %d is not listed (listed: %d)", tm, a[k].T))
+		}
 	}
 }
 
@@ -1760,6 +1836,12 @@ func replayC03(c *lib.Ctx, r *run, e *env) error {
 		as := e.byName[in.Asset]
 		if as == nil {
 			return fmt.Errorf("unknown asset %s", in.Asset)
+		}
+		if strings.HasSuffix(in.Mode, "-none") {
+			r.fetchNone(as, in, "replayed request for something that is no segment")
+			resp := as.ls.GetRaw(in.AudioURL)
+			fmt.Printf("replay C03: GET %s -> %d %s\n", in.AudioURL, resp.Status, resp.Panic)
+			return nil
 		}
 		o := r.fetchAudio(as, in, in.N)
 		fmt.Printf("replay C03: GET %s -> %d %s tfdt=%d frames=%d seq=%d\n", in.AudioURL, o.status, o.panicS, o.ps.Tfdt, len(o.ps.Frames), o.ps.Seq)
